@@ -13,7 +13,7 @@ def worker(inst):
     from lang.build import build
     theme, prog, twin = inst
     out = check_prog(prog, build, twin=twin, label=theme, int_range_check=False, check_dtype=False,
-                     timeout_ms=4000 if os.environ.get('VERIF_TIER', 'quick') == 'quick' else 30000)
+                     timeout_ms=4000 if os.environ.get('VERIF_TIER', 'quick') == 'quick' else 12000)
     if out["status"] == "declined" and is_core(prog):
         out["core_decline"] = True
     return out
